@@ -24,7 +24,8 @@ Inductive qexpr :=
 | QNot (e : qexpr)
 | QNeg (e : qexpr)                                   (* unary minus / plus *)
 | QBetween (e : qexpr) (negated : bool) (lo hi : qexpr)
-| QOther.                                            (* anything else except a subquery *)
+| QOther                                             (* anything else except a subquery *)
+| QSub.                                              (* a subquery used as an operand: ( SELECT ... ) inside an expression *)
 
 Inductive pitem :=
 | PExpr (e : qexpr)
@@ -233,6 +234,8 @@ Section Compile.
         end
       end
     | QOther => Err EUnsupportedOperator
+    (* a subquery stands for the rows it selects and is only accepted as an item of the SELECT list *)
+    | QSub => Err EUnsupportedOperation
     end.
 
   Fixpoint compile_proj (l : list pitem) : res (list (cexpr * option (list Z))) :=
